@@ -494,6 +494,16 @@ class MetricFetcher(Generic[QuantityT], FormulaStep):
                 self._name,
                 err,
             )
+            # The fallback stream can be ahead of the primary one (for example after
+            # it dropped a sample), in which case the sample it fetched last is the
+            # next one, and fetching another one would skip it.
+            latest = self._latest_fallback_sample
+            if (
+                latest is not None
+                and self._next_value is not None
+                and latest.timestamp > self._next_value.timestamp
+            ):
+                return latest
             return await fallback_fetcher.receive()
 
         fallback = await self._synchronize_and_fetch_fallback(primary, fallback_fetcher)
